@@ -155,6 +155,7 @@ func RunBehaviour(b *Behaviour, ks *sut.KeySet, workRoot string) (res BehResult)
 		}
 		return
 	}
+	defer inst.Close()
 	w := NewWorld(inst, b.Conc)
 	add := func(prop string, step int, call Call, f string, a ...interface{}) {
 		if !has(b.Oracles, prop) {
@@ -627,6 +628,7 @@ func compareC01(b *Behaviour, n int, st *Step, inst *sut.Instance, dir string, v
 		res.Infra = "rebuild: " + err.Error()
 		return
 	}
+	defer rb.Close()
 	if ierr != nil {
 		add("C01", n, st.Call, "rebuilding the index from the tape failed: %v", ierr)
 	}
@@ -648,6 +650,7 @@ func compareC01(b *Behaviour, n int, st *Step, inst *sut.Instance, dir string, v
 		res.Infra = "reopen: " + err.Error()
 		return
 	}
+	defer ro.Close()
 	if ro.InitErr != nil {
 		add("C01", n, st.Call, "reopening the existing index failed: %v", ro.InitErr)
 		return
@@ -677,6 +680,7 @@ func compareC07(b *Behaviour, n int, st *Step, inst *sut.Instance, dir string, s
 		res.Infra = "rebuild: " + err.Error()
 		return
 	}
+	defer rb.Close()
 	if ierr != nil || rb.InitErr != nil {
 		add("C07", n, st.Call, "from-scratch rebuild failed: %v %v", ierr, rb.InitErr)
 		return
@@ -733,9 +737,11 @@ func compareC07(b *Behaviour, n int, st *Step, inst *sut.Instance, dir string, s
 		}
 		if _, err := ri.FS.Initialize("/", os.ModePerm); err != nil {
 			add("C07", n, st.Call, "j=%d: opening the re-indexed index failed: %v", j, err)
+			ri.Close()
 			continue
 		}
 		v, err := sut.Walk(ri.FS, sut.ViewOpts{ReadContent: false})
+		ri.Close()
 		if err != nil {
 			add("C07", n, st.Call, "j=%d: walking the re-indexed filesystem failed: %v", j, err)
 			continue
